@@ -2,7 +2,7 @@
   Props/C16.lean — C16: non-ISO calendar fields describe the same day as the ISO date.
 
   For every modelled calendar (gregory, buddhist, roc, japanese, coptic, ethiopic, ethioaa, indian, islamic-civil,
-  islamic-tbla; iso8601 trivially) and EVERY date of Temporal's range:
+  islamic-tbla, persian; iso8601 trivially) and EVERY date of Temporal's range:
     * the reported fields are within bounds and two consecutive ISO days are consecutive calendar days
       (the laws of Spec/CalLaws.lean, which the driver also evaluates on what the implementation reports for the
       calendars that are not modelled);
@@ -35,6 +35,22 @@ theorem arith_lawful (cal : CalId) (c : ACal) (h : cal.arith = some c) : c.Lawfu
   · exact indian_lawful
   · exact Lawful.mono (islamicLike_lawful _) (fun _ _ => trivial)
   · exact Lawful.mono (islamicLike_lawful _) (fun _ _ => trivial)
+  · exact Lawful.mono persian_lawful (fun _ _ => trivial)
+
+/-- Inside Temporal's range every day-count calendar's year stays far below the crate's year guard. -/
+theorem arith_year_bound (cal : CalId) (c : ACal) (h : cal.arith = some c) (n : Int) (hn : InTemporalDays n) :
+    -290000 ≤ c.yearOf n ∧ c.yearOf n ≤ 290000 := by
+  cases cal <;> simp [CalId.arith] at h <;> subst h
+  · exact copticLike_year_bound _ n (by decide) hn
+  · exact copticLike_year_bound _ n (by decide) hn
+  · exact copticLike_year_bound _ n (by decide) hn
+  · exact indian_year_bound n hn
+  · exact islamicLike_year_bound _ n (by decide) hn
+  · exact islamicLike_year_bound _ n (by decide) hn
+  · exact persian_year_bound n hn
+
+theorem inRange_temporalDays (iso : IsoDate) (hr : InRange iso) :
+    InTemporalDays (dayNumber iso.year iso.month iso.day) := ⟨hr.2.1, hr.2.2⟩
 
 /-- C16 (day ↔ date, every day-count calendar): converting a day to (year, month, day) gives an existing date whose
     day number is that day, and converting an existing date to its day number and back gives the date. -/
@@ -131,7 +147,7 @@ theorem fields_code_shape (cal : CalId) (iso : IsoDate) (hr : InRange iso) (f : 
       simp only [arithFields]
       generalize (c.ofDay (dayNumber iso.year iso.month iso.day)) = ymd at v1 v2 ⊢
       cases cal <;> simp [CalId.arith] at hc <;> subst hc <;>
-        simp only [copticLike, coptic, ethiopic, indian, islamicCivil, islamicTbla, islamicLike] at v2 <;>
+        simp only [copticLike, coptic, ethiopic, indian, islamicCivil, islamicTbla, islamicLike, persian] at v2 <;>
         (have b : 1 ≤ (ymd.2.1 : Int) ∧ (ymd.2.1 : Int) ≤ 13 := by omega) <;>
         (constructor
          · by_cases h12 : ymd.2.1 ≤ 12
@@ -148,12 +164,33 @@ theorem rebuild_of (cal : CalId) (p : CalPartial) (era : Option String) (y : Int
     (hy : (p.year.isSome || (p.era.isSome && p.eraYear.isSome)) = true)
     (hm : (p.month.isSome || p.monthCode.isSome) = true) (hd : p.day = some d)
     (hres : resolveEraYear cal p = .ok (era, y)) (hcode : resolveCode cal p = .ok code)
+    (hyb : -300000 ≤ y ∧ y ≤ 300000)
     (hlib : fromCodes cal era y code d = some iso) (hr : InRange iso) :
     plainDateFromPartialCal cal p ov = .ok iso := by
+  have hg : ¬ (y < -MAX_CALENDAR_YEAR ∨ y > MAX_CALENDAR_YEAR) := by unfold MAX_CALENDAR_YEAR; omega
   unfold plainDateFromPartialCal dateFromPartialCal resolveFields
   simp only [hy, hm, hd, hres, hcode, resolveDay, Out.bind_ok, Out.pure_eq_ok, Bool.not_true, Bool.false_or,
-    Option.isNone_some, Bool.false_eq_true, if_false, hlib]
+    Option.isNone_some, Bool.false_eq_true, if_false, hg, hlib]
   exact newWithOverflow_of_inRange iso _ hr
+
+/-- The year a modelled calendar reports for a date in range passes the crate's year guard. -/
+theorem fields_year_bound (cal : CalId) (iso : IsoDate) (hr : InRange iso) (f : CalFields)
+    (hf : fields cal iso = some f) : -300000 ≤ f.year ∧ f.year ≤ 300000 := by
+  have hy := inRange_year iso hr
+  by_cases hiso : cal.isoBased = true
+  · rw [fields_iso cal hiso] at hf
+    cases hf
+    simp only [isoFields, yearInfo_year]
+    split <;> omega
+  · cases hc : cal.arith with
+    | none => simp [fields, hiso, hc] at hf
+    | some c =>
+      rw [fields_arith cal c hc] at hf
+      cases hf
+      have hb := arith_year_bound cal c hc _ (inRange_temporalDays iso hr)
+      have e : (c.ofDay (dayNumber iso.year iso.month iso.day)).1 = c.yearOf (dayNumber iso.year iso.month iso.day) := rfl
+      simp only [arithFields, yearInfo_year, e]
+      split <;> omega
 
 /-- The library's year route for every modelled non-ISO calendar. -/
 theorem lib_year (cal : CalId) (hne : cal ≠ .iso8601) (iso : IsoDate) (hr : InRange iso)
@@ -182,7 +219,7 @@ theorem C16_rebuild_from_year_code (cal : CalId) (hne : cal ≠ .iso8601) (iso :
     plainDateFromPartialCal cal (byCode f) ov = .ok iso := by
   obtain ⟨hv, _⟩ := fields_code_shape cal iso hr f hf
   refine rebuild_of cal (byCode f) none f.year f.monthCode f.day iso ov rfl rfl rfl rfl ?_
-    (lib_year cal hne iso hr hj f hf) hr
+    (fields_year_bound cal iso hr f hf) (lib_year cal hne iso hr hj f hf) hr
   simp [resolveCode, byCode, hv]
 
 /-- **C16 (rebuild from year, month, day)**: the same through the ordinal month. -/
@@ -191,7 +228,7 @@ theorem C16_rebuild_from_year_month (cal : CalId) (hne : cal ≠ .iso8601) (iso 
     plainDateFromPartialCal cal (byMonth f) ov = .ok iso := by
   obtain ⟨hv, hm⟩ := fields_code_shape cal iso hr f hf
   refine rebuild_of cal (byMonth f) none f.year f.monthCode f.day iso ov rfl rfl rfl rfl ?_
-    (lib_year cal hne iso hr hj f hf) hr
+    (fields_year_bound cal iso hr f hf) (lib_year cal hne iso hr hj f hf) hr
   simp [resolveCode, byMonth, hm, hv]
 
 /-- The era route for every modelled non-ISO calendar. -/
@@ -200,17 +237,19 @@ theorem era_route (cal : CalId) (hne : cal ≠ .iso8601) (iso : IsoDate) (hr : I
   by_cases hiso : cal.isoBased = true
   · rw [fields_iso cal hiso] at hf
     cases hf
+    have hy := inRange_year iso hr
     cases cal <;> simp [CalId.isoBased] at hiso hne
-    · exact era_route_buddhist _ _ _ hr.1
-    · exact era_route_gregory _ _ _ hr.1
-    · exact era_route_japanese _ _ _ hr.1
-    · exact era_route_roc _ _ _ hr.1
+    · exact era_route_buddhist _ _ _ hr.1 hy
+    · exact era_route_gregory _ _ _ hr.1 hy
+    · exact era_route_japanese _ _ _ hr.1 hy
+    · exact era_route_roc _ _ _ hr.1 hy
   · cases hc : cal.arith with
     | none => simp [fields, hiso, hc] at hf
     | some c =>
       rw [fields_arith cal c hc] at hf
       cases hf
       exact era_route_arith cal c hc (arith_lawful cal c hc) iso hr
+        (arith_year_bound cal c hc _ (inRange_temporalDays iso hr))
 
 theorem fields_has_era (cal : CalId) (hne : cal ≠ .iso8601) (iso : IsoDate) (f : CalFields)
     (hf : fields cal iso = some f) : f.era.isSome = true ∧ f.eraYear.isSome = true := by
@@ -232,9 +271,9 @@ theorem C16_rebuild_from_era (cal : CalId) (hne : cal ≠ .iso8601) (iso : IsoDa
     (f : CalFields) (hf : fields cal iso = some f) (ov : Option Overflow) :
     plainDateFromPartialCal cal (byEra f) ov = .ok iso := by
   obtain ⟨hv, _⟩ := fields_code_shape cal iso hr f hf
-  obtain ⟨e, ey, hres, hlib⟩ := era_route cal hne iso hr f hf
+  obtain ⟨e, ey, hres, hyb, hlib⟩ := era_route cal hne iso hr f hf
   obtain ⟨he, hy⟩ := fields_has_era cal hne iso f hf
-  refine rebuild_of cal (byEra f) e ey f.monthCode f.day iso ov ?_ rfl rfl hres ?_ hlib hr
+  refine rebuild_of cal (byEra f) e ey f.monthCode f.day iso ov ?_ rfl rfl hres ?_ hyb hlib hr
   · simp [byEra, he, hy]
   · simp [resolveCode, byEra, hv]
 
@@ -244,6 +283,14 @@ theorem C16_japanese_nonpositive_year :
     fields .japanese ⟨0, 1, 1⟩ = some (isoFields .japanese 0 1 1) ∧
     plainDateFromPartialCal .japanese (byCode (isoFields .japanese 0 1 1)) (some .reject) = .err .range := by
   decide +kernel
+
+/-- The crate's year guard: a year or era year beyond ±300000 is a RangeError before the library is asked. -/
+theorem C16_year_guard (cal : CalId) (p : CalPartial) (ov : Overflow) (e : Option String) (y : Int) (c : MonthCode)
+    (d : Int) (hres : resolveFields cal p = .ok (e, y, c, d)) (hy : y < -300000 ∨ y > 300000) :
+    dateFromPartialCal cal p ov = .err .range := by
+  unfold dateFromPartialCal
+  have hg : (y < -MAX_CALENDAR_YEAR ∨ y > MAX_CALENDAR_YEAR) := by unfold MAX_CALENDAR_YEAR; omega
+  simp only [hres, Out.bind_ok, hg, if_true]
 
 /-- **C16 (changing the calendar keeps the ISO date)**: `with_calendar` rebuilds the value from its ISO fields, which
     for a date in range is the same ISO date; its calendar fields are then a function of that date alone. -/
@@ -333,6 +380,10 @@ example : plainDateFromPartialCal .japanese ⟨some "taisho", some 1, none, none
     .ok ⟨1912, 7, 30⟩ := by decide +kernel
 example : plainDateFromPartialCal .japanese ⟨some "taisho", some 1, none, none, some ⟨7, false⟩, some 29⟩ none =
     .err .range := by decide +kernel
+example : (fields .persian ⟨2024, 3, 20⟩).map (fun f => (f.year, f.month, f.day, f.inLeapYear)) =
+    some (1403, 1, 1, true) := by decide +kernel
+example : plainDateFromPartialCal .roc ⟨some "roc", some 2147483647, none, none, some ⟨2, false⟩, some 28⟩ none =
+    .err .range := by decide +kernel
 example : calFromId "IsLaMiC-CiViL".toList = .ok .islamicCivil ∧ calFromId "islamicc".toList = .ok .islamicCivil ∧
     calFromId "julian".toList = .err .range := by decide +kernel
 
@@ -346,6 +397,7 @@ end TemporalModel
 #print axioms TemporalModel.Cal.C16_rebuild_from_year_month
 #print axioms TemporalModel.Cal.C16_rebuild_from_era
 #print axioms TemporalModel.Cal.C16_japanese_nonpositive_year
+#print axioms TemporalModel.Cal.C16_year_guard
 #print axioms TemporalModel.Cal.C16_with_calendar_keeps_iso
 #print axioms TemporalModel.Cal.C16_era_names_accepted
 #print axioms TemporalModel.Cal.C16_reported_eras_accepted
